@@ -116,7 +116,14 @@ def run_go(scenarios, jobs=8, binary=None):
     lines = [json.dumps(s) for s in scenarios]
     env = dict(os.environ, GOMEMLIMIT="2GiB")
     out = run_parallel([binary], lines, jobs=jobs, env=env)
-    return [json.loads(l) for l in out]
+    res = [json.loads(l) for l in out]
+    for g in res:
+        for r in g.get("res", []) or []:
+            if isinstance(r, dict) and "out" in r:
+                for k in ("trace", "pollAt", "calls", "rules"):
+                    if k in r and r[k] is None:
+                        r[k] = []
+    return res
 
 
 def run_lean(scenarios, jobs=8):
@@ -137,7 +144,7 @@ def add_order_hints(scenario, gores):
     for op, r in zip(sc["ops"], gores["res"]):
         if op.get("op") != "exec" or "trace" not in r:
             continue
-        trace, pollat = r["trace"], r["pollAt"]
+        trace, pollat = r["trace"] or [], r["pollAt"] or []
         passes = []
         cur = None
         last_poll = None
@@ -148,28 +155,53 @@ def add_order_hints(scenario, gores):
                 last_poll = pa
             elif ev[0] == "e":
                 gap = pa - last_poll - 2
+                ca = op.get("cancelAt")
+                if ca is not None and pa - 2 >= ca:
+                    # the poll inside RuleEntry.Evaluate reported cancellation: it costs two Err() calls
+                    gap -= 1
                 for _ in range(max(0, gap)):
                     cur.append(None)
                 cur.append(ev[2])
                 last_poll = pa
         out = r.get("out", "")
-        if out.startswith("evalErr:") and passes:
-            # the failing rule was visited right after the last reported one
+        total = r.get("polls", 0)
+        last_is_pass = bool(trace) and trace[-1][0] in ("b", "e")
+        if passes and last_is_pass and last_poll is not None:
+            # the run ended inside (or right after) the last pass: entries visited after the last reported one
+            # are not observable through events, but every inactive one of them cost one poll
+            if out.startswith("evalErr:"):
+                cost = 3 if out.endswith(":true") else 2
+                for _ in range(max(0, total - last_poll - cost)):
+                    passes[-1].append(None)
+                passes[-1].append(out.split(":")[1])
+            elif out == "ctx":
+                for _ in range(max(0, total - last_poll - 2)):
+                    passes[-1].append(None)
+        elif out.startswith("evalErr:") and passes:
             passes[-1].append(out.split(":")[1])
         op["orders_raw"] = passes
+        op["retracted_final"] = r.get("retracted") or []
     return sc
 
 
 def fill_orders(sc, keys_by_inst):
-    """replace None placeholders by keys of entries that are not evaluated in that pass"""
+    """replace None placeholders (an inactive entry was visited here) by keys of entries known to be inactive:
+    removed ones, and those absent from an earlier pass of the same call (retracted)"""
     for op in sc["ops"]:
         if op.get("op") != "exec" or "orders_raw" not in op:
             continue
-        keys = keys_by_inst.get(op["inst"], [])
+        info = keys_by_inst.get(op["inst"], ([], set()))
+        keys, deleted = info
+        inactive = set(deleted)
         orders = []
-        for p in op.pop("orders_raw"):
+        raw = op.pop("orders_raw")
+        finally_retracted = set(op.pop("retracted_final", []))
+        for pi, p in enumerate(raw):
             named = [k for k in p if k is not None]
-            spare = [k for k in keys if k not in named]
+            pref = [k for k in keys if k not in named and k in inactive]
+            pref2 = [k for k in keys if k not in named and k not in inactive and k in finally_retracted]
+            other = [k for k in keys if k not in named and k not in inactive and k not in finally_retracted]
+            spare = pref + pref2 + other
             out = []
             for k in p:
                 if k is None:
@@ -177,18 +209,20 @@ def fill_orders(sc, keys_by_inst):
                 else:
                     out.append(k)
             orders.append(out + spare)
+            if pi < len(raw) - 1:
+                inactive |= set(k for k in keys if k not in named)
         op["orders"] = orders
     return sc
 
 
 def instance_keys(scenario, gores):
-    """rule keys (by RuleName at the time) of every instance, from the real results"""
+    """rule keys (by RuleName at the time) and removed ones of every instance, from the real results"""
     keys = {}
     for op, r in zip(scenario["ops"], gores.get("res", [])):
         if op.get("op") == "inst" and r.get("ok"):
-            keys[op["as"]] = [x[1] for x in r["rules"]]
+            keys[op["as"]] = ([x[1] for x in r["rules"]], set(x[1] for x in r["rules"] if x[4]))
         if op.get("op") == "remove" and op.get("inst") and "rules" in r:
-            keys[op["inst"]] = [x[1] for x in r["rules"]]
+            keys[op["inst"]] = ([x[1] for x in r["rules"]], set(x[1] for x in r["rules"] if x[4]))
     return keys
 
 
@@ -289,7 +323,7 @@ def canon_result(op, r, go):
             out["rules"] = r.get("rules")
     elif kind == "exec":
         out["out"] = r.get("out")
-        out["trace"] = r.get("trace")
+        out["trace"] = r.get("trace") or []
         out["polls"] = r.get("polls")
         out["store"] = canon_store(r.get("store", []))
         out["calls"] = canon_calls(r.get("calls"), go)
@@ -373,7 +407,7 @@ def compare_spec(scenario, gores, leanres):
         if isinstance(sp.get("out"), str) and sp["out"].startswith("unmodelled:"):
             continue
         if op["op"] == "exec":
-            d = first_diff(g.get("trace"), sp.get("trace"), "trace")
+            d = first_diff(g.get("trace") or [], sp.get("trace") or [], "trace")
             if d:
                 out.append((i, "trace", d))
                 continue
